@@ -262,11 +262,13 @@ class SymbolGraph(metaclass=SingletonMeta):
         :param type_: The symbol type to look for
         :return: All wrapped instances that refer to an instance of the given type.
         """
-        yield from (
+        instances = (
             instance.instance
             for cls in [type_] + recursive_subclasses(type_)
             for instance in list(self._class_to_wrapped_instances[cls])
         )
+        # an instance may have died since the list of its class was copied (the generator is consumed lazily)
+        yield from filter(lambda instance: instance is not None, instances)
 
     def get_wrapped_instance(self, instance: Any) -> Optional[WrappedInstance]:
         if isinstance(instance, WrappedInstance):
